@@ -15,6 +15,12 @@ Semantics that matter (and that the correspondence stream `fs` of C13 checks aga
 * `O_CREATE` creates the (empty) file *before* the lock is attempted, so a failed lock leaves it behind;
 * `close` always releases the handle, even when it reports an error; a second close fails;
 * `unlink` removes the name; a failing `unlink` leaves the file.
+
+The same program type serves `Lock`/`Unlock` (pid file), `Load`, the two loaders and the closers they return
+(`write`, `removeAll`, `mmap`, `unmap`, `dataFile`; `FsStep.always` for "run both, return the first error").
+Section `World` below is a second, several-actor semantics of the same programs in which `flock` locks are
+state (on the inode, per open file description) instead of an assumption of the environment: that is where
+`lock_exclusive`, `second_writer_refused`, `unlock_releases`, `load_shared_lock_blocks_remove` are proved.
 -/
 namespace Bluge.FS
 
